@@ -13,7 +13,7 @@ for D in $SRC/R*; do
   N=$(basename $D); M=/tmp/rrepo_$$; rm -rf $M; mkdir -p $M; git -C /repo archive HEAD | tar -x -C $M
   (cd $M && patch -p1 -s < $D/patch.diff) || { echo "$N	patch-failed" >> $OUT; rm -rf $M; continue; }
   for i in 01 02 03 04 05 06 07 08 09 10 11 12 13 14 15 16 17 18 19 20; do
-    L=$(cd $VC && SYMMRAY_REPO=$M ./check C$i 2>&1 | grep -E "VIOLATION" | head -1)
+    L=$(cd $VC && SYMMRAY_REPO=$M VERIF_EVIDENCE_DIR=$M/.evidence ./check C$i 2>&1 | grep -E "VIOLATION" | head -1)
     if [ -z "$L" ]; then R=ok; elif echo "$L" | grep -q no-failing-input-found; then R=tie-only; else R=ALARM; fi
     echo "$N	C$i	$R" >> $OUT
   done
